@@ -66,35 +66,34 @@ Theorem C04_bms_read_header : forall (tb : list Q) (cfg : layout) (mk : Z) (l1 l
   /\ (is_exbpm_key k = false -> is_wav_key k = false -> text_eqb K_BPM k = false -> In (k, v) (m_misc (c_meta c))).
 Proof. exact bms_read_header. Qed.
 
-(* ---- the whole-file statement is refuted (1): lines out of time order, LN tail pairs with the last PARSED head ---- *)
-Definition w_order : list text := [(tx[L[35;66;80;77;32;49;50;48]])%Z; (tx[L[35;76;78;79;66;74;32;90;90]])%Z; (tx[L[35;48;48;50;49;49;58;48;49]])%Z; (tx[L[35;48;48;49;49;49;58;90;90]])%Z; (tx[L[35;48;48;48;49;49;58;48;49]])%Z].
-Theorem C04_read_denotes_refuted_order :
-  exists lines c, wf_bms_lines lay_BMS lines = true /\ tempo_on_grid tbl lines = true
-                  /\ bms_read tbl lay_BMS Tables.bms.max_keys lines = Some c
-                  /\ c04_specb 0 lay_BMS lines c = false
-                  /\ exists h, In h (c_holds c) /\ (ho_len h == - (2000 # 1))%Q.
-Proof.
-  exists w_order. eexists. split; [vm_compute; reflexivity|]. split; [vm_compute; reflexivity|].
-  split; [vm_compute; reflexivity|]. split; [vm_compute; reflexivity|].
-  eexists. split; [left; reflexivity|]. vm_compute. reflexivity.
-Qed.
-
-(* ---- refuted (2): a tempo object whose distance to the previous one is off the 1/96 grid (subdivision 99) moves later notes ---- *)
+(* ---- the whole-file statement is refuted without the grid guard: a tempo object whose distance to the previous one is off the 1/96 grid (subdivision 99) moves later notes ---- *)
 Definition w_tempo : list text := [(tx[L[35;66;80;77;32;49;50;48]])%Z; (tx[L[35;48;48;48;48;51;58;48;48;55;56];R 48 194])%Z; (tx[L[35;48;48;49;49;49;58;48;49]])%Z].
 Theorem C04_read_denotes_refuted_tempo_grid :
-  exists lines c, wf_bms_lines lay_BMS lines = true /\ lines_in_order lay_BMS lines = true
+  exists lines c, wf_bms_lines lay_BMS lines = true
                   /\ bms_read tbl lay_BMS Tables.bms.max_keys lines = Some c
                   /\ c04_specb 0 lay_BMS lines c = false.
 Proof.
-  exists w_tempo. eexists. split; [vm_compute; reflexivity|]. split; [vm_compute; reflexivity|].
+  exists w_tempo. eexists. split; [vm_compute; reflexivity|].
   split; [vm_compute; reflexivity|]. vm_compute. reflexivity.
 Qed.
+
+(* ---- lines out of time order (the former LN defect, repaired in the code by pairing each lane in time order): the
+   tail of measure 1 closes the head of measure 0, the object of measure 2 stays a hit ---- *)
+Definition w_order : list text := [(tx[L[35;66;80;77;32;49;50;48]])%Z; (tx[L[35;76;78;79;66;74;32;90;90]])%Z; (tx[L[35;48;48;50;49;49;58;48;49]])%Z; (tx[L[35;48;48;49;49;49;58;90;90]])%Z; (tx[L[35;48;48;48;49;49;58;48;49]])%Z].
+Example C04_out_of_order_lines_ok :
+  wf_bms_lines lay_BMS w_order && tempo_on_grid tbl w_order
+  && match bms_read tbl lay_BMS Tables.bms.max_keys w_order with
+     | Some c => c04_specb 0 lay_BMS w_order c
+                 && match c_holds c with [h] => Qeq_bool (ho_off h) 0 && Qeq_bool (ho_len h) 2000 | _ => false end
+     | None => false
+     end = true.
+Proof. vm_compute. reflexivity. Qed.
 
 (* ---- non-vacuity: a text inside the domain and both guards (header fields, WAV table, overlay lines, 03 and 08 tempo
    changes inside a measure, an LN) is read to exactly the chart it denotes ---- *)
 Definition w_good : list text := [(tx[L[35;84;73;84;76;69;32;120;32;121]])%Z; (tx[L[35;65;82;84;73;83;84;32;122]])%Z; (tx[L[35;80;76;65;89;76;69;86;69;76;32;55]])%Z; (tx[L[35;71;69;78;82;69;32;103]])%Z; (tx[L[35;66;80;77;32;49;50;48]])%Z; (tx[L[35;66;80;77;48;49;32;49;51;51;46;53]])%Z; (tx[L[35;76;78;79;66;74;32;90;90]])%Z; (tx[L[35;87;65;86;48;49;32;97;46;119;97;118]])%Z; (tx[L[35;48;48;48;49;49;58;48;49]])%Z; (tx[L[35;48;48;48;49;49;58;48;48;48;48;48;49]])%Z; (tx[L[35;48;48;49;48;51;58;48;48;55;56]])%Z; (tx[L[35;48;48;49;49;49;58;48;48;90;90]])%Z; (tx[L[35;48;48;49;49;50;58;48;50]])%Z; (tx[L[35;48;48;50;48;56;58;48;48;48;49]])%Z; (tx[L[35;48;48;51;49;49;58;48;49]])%Z].
 Example C04_nonvacuous :
-  wf_bms_lines lay_BMS w_good && lines_in_order lay_BMS w_good && tempo_on_grid tbl w_good
+  wf_bms_lines lay_BMS w_good && tempo_on_grid tbl w_good
   && match bms_read tbl lay_BMS Tables.bms.max_keys w_good with
      | Some c => c04_specb 0 lay_BMS w_good c && (length (c_hits c) =? 3)%nat && (length (c_holds c) =? 1)%nat
      | None => false
